@@ -263,6 +263,9 @@ class Mirror:
 
     def _unm(self, d, x):
         k = d[0]
+        if k == "tvar":
+            from universe import TVARS
+            return self._unm(TVARS[d[1]], x)
         if k == "leaf":
             return self.leaf_u(d[1], x)
         if k == "none":
@@ -315,6 +318,9 @@ class Mirror:
 
     def _mar(self, d, x):
         k = d[0]
+        if k == "tvar":
+            from universe import TVARS
+            return self._mar(TVARS[d[1]], x)
         if k == "leaf":
             return self.leaf_m(d[1], x)
         if k == "none":
